@@ -94,7 +94,7 @@ func (g *gen) namedTy(depth int, cmp bool) *Ty {
 		}
 		var args []*Ty
 		for i := 0; i < nt.Arity; i++ {
-			if g.out && g.r.Chance(40) {
+			if g.out && g.r.Chance(40) && !(i == 0 && nt.CmpArg0) {
 				args = append(args, g.ty(depth-1, false)) // DESIGN section 4 #35: not named, not basic
 			} else {
 				args = append(args, g.arg(depth-1, i == 0 && nt.CmpArg0))
